@@ -340,6 +340,8 @@ CHECKS["C17"] = {
          "deadline_share": 0.5, "floor": {"quick": 100000, "thorough": 1000000}},
         {"name": "merged-path", "harness": "c17", "variant": "asan", "shards": 2, "quick": ["--p3", 1], "thorough": ["--p3", 1],
          "deadline_share": 0.05, "floor": {"quick": 20, "thorough": 20}},
+        {"name": "quoted-multiline", "harness": "c17", "variant": "asan", "shards": 4, "quick": ["--p3", 2], "thorough": ["--p3", 2],
+         "deadline_share": 0.05, "floor": {"quick": 1000, "thorough": 1000}},
     ],
     "assumptions": ["values longer than the stdio buffer are C14's subject"],
 }
